@@ -79,6 +79,18 @@ Theorem c02_driver_segments_exact :
 Proof. intros E etime esec HS H HH bs fuel hs en0. exact (g_segs_exact etime esec H HH bs fuel hs en0). Qed.
 Print Assumptions c02_driver_segments_exact.
 
+(** For the handler scripts of the correspondence check the fuel hypothesis of [c02_concat] always
+    holds: for every script (also one that makes Schedule panic), every initial schedule and every
+    boundary list, the driver's concatenated log, outcome and final state equal the single Run's. *)
+Theorem c02_concat_scripts : forall p cap init bs,
+  exists rs rl, run_script_segments p cap init bs = rs ++ [rl] /\
+    Forall (fun x => r_out x = Done) rs /\
+    flat_map (@r_log sev hst) (rs ++ [rl]) = r_log (run_script p cap init) /\
+    r_out rl = r_out (run_script p cap init) /\ r_hs rl = r_hs (run_script p cap init) /\
+    r_en rl = r_en (run_script p cap init).
+Proof. exact script_concat. Qed.
+Print Assumptions c02_concat_scripts.
+
 (* ------------------------------------------------------------------ non-vacuity *)
 
 (** a chain 10,20,...,100 with boundaries between, at, repeated and beyond event times: all calls
